@@ -724,6 +724,9 @@ func runAgent(o *fnutil.Out, cf, root string, nOut int, hists [][]string, rnd *r
 		o.Emit(e)
 	}
 	amu.Unlock()
+	// the fresh components of the "alone" runs are garbage at once (2 MiB serialization buffers each): collector on again
+	debug.SetGCPercent(50)
+	defer debug.SetGCPercent(-1)
 	// index the long-run output by own token: the token of the host field identifies the record
 	names := []string{"fluentd"}
 	if nOut == 2 {
